@@ -1,10 +1,4 @@
-(* FIXED variant of Model.v: the pipeline as it is after the repair proposed in reports/pipeline.md
-   (destroyWriter sets writer = nil under the writer lock BEFORE it closes the asyncprocessor, in
-   ServerSession and Client).  Compiled, not referenced by Props_C01.v; switch over when /repo has the fix.
-   Differences to Model.v: a detached writer (state WClosed) accepts nothing (r_push), its consumer keeps
-   draining the FIFO until Close() discards the rest (r_drain, r_nilw); the ring fields are unused.
-
-   Executable model of the gortsplib media pipeline (property C01). Proof-free.
+(* Executable model of the gortsplib media pipeline (property C01). Proof-free.
 
    One writer (ServerStream.WritePacketRTP, or Client.WritePacketRTP of a publisher) fans packets out
    to readers.  Per reader the code has
@@ -173,24 +167,33 @@ Definition r_drain (c : cfg) (r : rstate) : option rstate :=
       | [] => None
       end
   | WClosed true =>
-      match r_queue r with
-      | x :: q => Some (upd_data r q (r_wire r ++ [x]) (r_deliv r) (r_hist r) (r_lost r))
-      | [] => None
+      match nnth (r_rp r) (r_ring r) with
+      | Some (Some x) =>
+          Some (upd_ring (upd_data r (r_queue r) (r_wire r ++ [x]) (r_deliv r) (r_hist r) (r_lost r))
+                         (nset (r_rp r) None (r_ring r)) ((r_rp r + 1) mod c_Q c) (r_wp r))
+      | _ => None
       end
   | _ => None
   end.
-(* destroyWriter, first half (after the fix): writer = nil under the writer lock - nothing is pushed any more *)
+(* destroyWriter, first half: asyncprocessor.Close -> ringbuffer.Close sets every slot to nil (dropping
+   every queued closure) but leaves readIndex and writeIndex where they are: with n closures queued the
+   write position is n slots ahead of the read position. *)
 Definition r_closew (c : cfg) (r : rstate) : option rstate :=
   match r_ph r, r_w r with
-  | PhStopReq, WOpen st => Some (upd_ctl r PhStopReq (r_active r) (WClosed st) (r_con r))
+  | PhStopReq, WOpen st =>
+      Some (upd_ring (upd_data (upd_ctl r PhStopReq (r_active r) (WClosed st) (r_con r))
+                               [] (r_wire r) (r_deliv r) (r_hist r) (r_lost r ++ idxs (r_queue r)))
+                     (nrep None (c_Q c)) 0 (nlen (r_queue r) mod c_Q c))
   | _, _ => None
   end.
-(* destroyWriter, second half: asyncprocessor.Close() drops what is still queued and joins the consumer *)
+(* destroyWriter, second half: the consumer has been joined, writer = nil (what was pushed after Close
+   and not run by then is never run) *)
 Definition r_nilw (r : rstate) : option rstate :=
   match r_ph r, r_w r with
   | PhStopReq, WClosed _ =>
-      Some (upd_data (upd_ctl r PhStopReq (r_active r) WNone (r_con r))
-                     [] (r_wire r) (r_deliv r) (r_hist r) (r_lost r ++ idxs (r_queue r)))
+      Some (upd_ring (upd_data (upd_ctl r PhStopReq (r_active r) WNone (r_con r))
+                               (r_queue r) (r_wire r) (r_deliv r) (r_hist r) (r_lost r ++ idxs (ritems (r_ring r))))
+                     [] 0 0)
   | _, _ => None
   end.
 (* readerSetInactive *)
@@ -299,7 +302,14 @@ Definition r_push (c : cfg) (m f idx : N) (p : packet) (r : rstate) : rstate * b
             then (upd_data r (r_queue r ++ [mkItem ch m f idx false p]) (r_wire r) (r_deliv r)
                            (r_hist r ++ [idx]) (r_lost r), false)
             else (r, true)
-        | WClosed _ => (r, false)
+        | WClosed _ =>
+            match nnth (r_wp r) (r_ring r) with
+            | Some None =>
+                (upd_ring (upd_data r (r_queue r) (r_wire r) (r_deliv r) (r_hist r ++ [idx]) (r_lost r))
+                          (nset (r_wp r) (Some (mkItem ch m f idx true p)) (r_ring r))
+                          (r_rp r) ((r_wp r + 1) mod c_Q c), false)
+            | _ => (r, true)
+            end
         end
     end
   else (r, false).
